@@ -14,7 +14,7 @@ MANIFEST = {
                      "and deep sharing of nested elements with the destructor cascade — to a store of values, by induction over "
                      "operation histories and over access paths; coercion and equality lemmas over all integers / all values) "
                      "+ differential correspondence model vs real Variant.hpp (values and every block's reference count) vs an "
-                     "independent value-semantics reference; tie by translation: a translator regenerates Lean definitions of 31 member "
+                     "independent value-semantics reference; tie by translation: a translator regenerates Lean definitions of every member "
                      "functions from the current Variant.hpp on every run and each is proved equal to the model's step",
         "text": "Headline theorems deep_refines / deep_driver_refines: for all histories of all operations (assignments, copies, "
                 "swaps, typed assignments incl. temporaries, mutable accesses through nested paths of any depth) the heap model the "
@@ -42,16 +42,26 @@ MANIFEST = {
                 "the deep model resp. Val.type / Val.to* / one unfolding of veq of the value model, on every object that represents a model cell.  A body outside the "
                 "translated subset or one whose meaning changed breaks the tie (refusal / failed proof).  A coercion boundary table (3 210 decimal "
                 "strings at the range boundaries of int/uint/int64/uint64/double with sign, white space, zeros and trailing rest, 42 hard atof inputs) "
-                "runs real glibc against the Lean definitions of strtol/strtoul/atof and the Python reference on every run.",
+                "runs real glibc against the Lean definitions of strtol/strtoul/atof and the Python reference on every run.  "
+                "Continuation: every member of Variant.hpp and src/Variant.cpp is translated (destructor, all converting constructors, operator!=, "
+                "swap, the static null descriptor: gen_destruct, gen_ctorNull, gen_ctor_scalar, gen_ctor_boxed, gen_ne, gen_swap/gen_swap_self with "
+                "swapChain_dstep tying the chain to dstep's swap, gen_nullData); fuel monotonicity of release (release_mono) closes the f/f+1 gap of the "
+                "boxed assignment (gen_set*_fuel); the translator's two reorderings are lemmas (PropsGenOrder: release_frame, hoist_order, destroy_order); "
+                "atof of decimal texts with fraction/exponent: toDouble_fraction (parse to the exact rational) and atof_rounding_correct (the rounding "
+                "used for negative decimal exponents is the nearest double, ties to even, incl. subnormals and carry; carried over from the codec area).",
         "note": "Trusted: Lean kernel + the three standard axioms; the translator tools/gen_variant.py (Python; its rules: NSTD_VERIF_RC_YIELD hook "
                 "macros dropped; `&other != this` is a parameter, `other` is read only where that test holds and never after clear(); `->~T()` detaches "
                 "the elements, which are destroyed right after delete[] (the model's order unlink-then-destroy); `->type = K; ->ref = N` of a new block "
                 "hoisted to its allocation; the element destructor is a parameter instantiated with release f; integer casts value-preserving inside the "
                 "target range, reductions mod 2^32/2^64 outside; String::to*/from* are the area's definitions; reading a union member under another tag "
                 "is refused) and the vocabulary Raw.lean it targets; hand translation (validated by the correspondence run, not proved) of what is NOT "
-                "translated: swap, operator!=, the converting constructors, the nested walk and the List/Array/HashMap members.  gen_set<Boxed> equals "
-                "setBoxedCell on the clone branch; on the in-place branch the element destructors run at fuel f where the model says f+1 (no fuel "
-                "monotonicity lemma).  Doubles are opaque in the theorems (any semantics of ==, casts, atof, printf %f): every "
+                "translated: the nested walk through the accessors and the List/Array/HashMap members (not in the anchored files).  gen_set<Boxed> equals "
+                "setBoxedCell on the clone branch; on the in-place branch the element destructors run at fuel f where the model says f+1: closed by the "
+                "sandwich gen_set*_fuel (release_mono).  The reorderings (hoisted ->type/->ref, destroy after delete[]) are justified by hoist_order / "
+                "destroy_order under Bounded and `no payload stores a handle to the block` (consequences of DInv, not re-derived inside these lemmas).  "
+                "swap is translated as calls of the translated copy constructor / operator= / destructor on named objects (aliasing `&other == this` as a "
+                "separate branch).  IeeeRat.lean is a copy of the codec area's rounding definitions (proved equal to them); atof texts without integer "
+                "part, non-negative decimal exponents above 2^64, hex floats and %f remain definitions tied bit-exactly only.  Doubles are opaque in the theorems (any semantics of ==, casts, atof, printf %f): every "
                 "statement about the floating alternative is definitional, the double coercions are covered by the correspondence run "
                 "against Python floats (bit-exact for toDouble/atof, byte-exact for %f); about the driver's IEEE instance (Ieee.lean) only "
                 "the integer conversion is proved: toDouble() of bool/integers is dOfInt of the stored integer and dOfInt is the correctly "
